@@ -78,8 +78,23 @@ func c12a(c *Ctx) {
 				continue
 			}
 			for ri, res := range r.Results[:len(r.Results)-1] {
+				// a field of the selected record (`selected.statements`) is selected with the record
+				if f, isField := res.(*ssa.Field); isField {
+					res = f.X
+				}
 				var leaves []ssa.Value
 				phiLeaves(res, map[ssa.Value]bool{}, &leaves)
+				// ... or of a record variable assigned once per alternative
+				var memAlts []storeAlt
+				if a := memVar(res); a != nil && a.Heap == false {
+					memAlts = c.reachingStores(fn, a, res.(ssa.Instruction))
+					if len(memAlts) > 0 {
+						leaves = nil
+						for _, ma := range memAlts {
+							leaves = append(leaves, ma.val)
+						}
+					}
+				}
 				fromMap := false
 				for _, lf := range leaves {
 					if m := lookupMap(lf); m != nil && caseMaps[m] {
@@ -99,7 +114,11 @@ func c12a(c *Ctx) {
 					must []string
 				}
 				var alts []selAlt
-				if ph, isPhi := res.(*ssa.Phi); isPhi && !isLoopHeader(ph.Block()) {
+				if len(memAlts) > 0 {
+					for _, ma := range memAlts {
+						alts = append(alts, selAlt{lookupKey(c, fn, ma.val), ma.must})
+					}
+				} else if ph, isPhi := res.(*ssa.Phi); isPhi && !isLoopHeader(ph.Block()) {
 					for i, e := range ph.Edges {
 						alts = append(alts, selAlt{lookupKey(c, fn, e), c.edgeMust(fn, ph.Block().Preds[i], ph.Block())})
 					}
@@ -1013,6 +1032,39 @@ func c12f(c *Ctx) {
 				}
 				if call, ok := v.(*ssa.Call); ok {
 					parse = call
+				}
+				// a record built from the results of one parse
+				if ld, ok := v.(*ssa.UnOp); ok && parse == nil {
+					if a, ok := ld.X.(*ssa.Alloc); ok && a.Comment == "complit" {
+						var one *ssa.Call
+						okAll := true
+						n := 0
+						for _, ar := range *a.Referrers() {
+							fa, ok := ar.(*ssa.FieldAddr)
+							if !ok {
+								continue
+							}
+							for _, fr := range *fa.Referrers() {
+								st, ok := fr.(*ssa.Store)
+								if !ok || st.Addr != ssa.Value(fa) {
+									continue
+								}
+								n++
+								fv := st.Val
+								if ex, ok := fv.(*ssa.Extract); ok {
+									fv = ex.Tuple
+								}
+								call, isCall := fv.(*ssa.Call)
+								if !isCall || (one != nil && one != call) {
+									okAll = false
+								}
+								one = call
+							}
+						}
+						if okAll && n > 0 && one != nil {
+							parse = one
+						}
+					}
 				}
 				if parse == nil {
 					c.Bad(fmt.Sprintf("%s/update#%d/value", key, ui), c.W.Pos(u.Pos()), "the recorded value is not the result of the case content parse")
